@@ -224,7 +224,7 @@ inline void run_seq(const SeqProg &p) {
 
 // ================================================================ (b) threads on vrt
 struct Party { uint8_t flavour; uint8_t count; uint8_t yields; };   // flavour 0 coroutine, 1 blocking
-struct MtProg { uint8_t limit; std::vector<Party> prod, cons; uint8_t unblocks = 0; };   // unblocks: unblock_pop(e) calls issued by another thread (unbounded queue)
+struct MtProg { uint8_t limit; std::vector<Party> prod, cons; uint8_t unblocks = 0; uint8_t monitor = 0; };   // monitor: another thread polls size()/empty() while the others work   // unblocks: unblock_pop(e) calls issued by another thread (unbounded queue)
 
 inline MtProg decode_mt(hz::Reader &r, bool bounded) {
     MtProg p;
@@ -237,6 +237,7 @@ inline MtProg decode_mt(hz::Reader &r, bool bounded) {
     for (unsigned k = 0; k < total; k++) p.cons[r.mod(nc)].count++;
     if (!bounded && r.mod(3) == 0) p.unblocks = (uint8_t)(1 + r.mod(2));
     if (bounded && r.mod(3) == 1) p.unblocks = (uint8_t)(1 + r.mod(2));      // bounded queue: unblock_push(e) calls
+    p.monitor = (uint8_t)(r.mod(3) == 1);
     return p;
 }
 inline std::string describe_mt(const MtProg &p) {
@@ -245,6 +246,7 @@ inline std::string describe_mt(const MtProg &p) {
     for (size_t i = 0; i < p.prod.size(); i++) d << " P" << (unsigned)i << "[" << (p.prod[i].flavour ? "blocking" : "coroutine") << " x" << (unsigned)p.prod[i].count << ", yield*" << (unsigned)p.prod[i].yields << "]";
     for (size_t i = 0; i < p.cons.size(); i++) d << " C" << (unsigned)i << "[" << (p.cons[i].flavour ? "pop().wait()" : "co_await pop()") << " x" << (unsigned)p.cons[i].count << ", yield*" << (unsigned)p.cons[i].yields << "]";
     if (p.unblocks && !p.limit) d << " + another thread calls unblock_pop(e) x" << (unsigned)p.unblocks << " (a failed pop is retried)";
+    if (p.monitor) d << " + a monitor thread polls size()/empty()";
     if (p.unblocks && p.limit) d << " + another thread calls unblock_push(e) x" << (unsigned)p.unblocks << " (a failed push - its item was withdrawn - is retried)";
     return d.s;
 }
@@ -315,6 +317,9 @@ struct MtRun {
         });
         if constexpr (!BOUNDED) if (prog.unblocks) th.emplace_back([this, &prog] {
             for (unsigned k = 0; k < prog.unblocks; k++) { hz::upoints(1 + k); bool r = q->unblock_pop(std::make_exception_ptr(val::TestExc(9))); if (r) unblock_true++; }
+        });
+        if (prog.monitor) th.emplace_back([this] {
+            for (int k = 0; k < 3; k++) { hz::upoint(); std::size_t n = q->size(); bool e = q->empty(); hz::slot_add(13, (long)n + (e ? 1 : 0)); }     // (what it reads is not judged: another thread may act in between)
         });
         for (size_t i = 0; i < prog.cons.size(); i++) th.emplace_back([this, i] { cons_thread((int)i); });
         for (size_t i = 0; i < prog.prod.size(); i++) th.emplace_back([this, i] { prod_thread((int)i); });
